@@ -39,6 +39,8 @@ var c19ctxs = []string{"statement", "operand of 1 + f()*2", "argument of another
 func c19exec(c c19cfg) (got, want string) {
 	m := goat.New()
 	defer m.Close()
+	// The recorder renders its arguments at the time of the call (argument slices may alias the VM stack;
+	// the property speaks about what the native receives, not about retention after it returned).
 	var seen []string
 	rec := func(tag string, args []goatlang.Value) {
 		var p []string
@@ -51,6 +53,7 @@ func c19exec(c c19cfg) (got, want string) {
 		}
 		seen = append(seen, tag+"("+strings.Join(p, ",")+")")
 	}
+	render := func() string { return strings.Join(seen, " ") }
 	results := func(n int) []goatlang.Value {
 		out := make([]goatlang.Value, n)
 		for i := range out {
@@ -147,21 +150,44 @@ func c19exec(c c19cfg) (got, want string) {
 		body = "\tfmt.Println(id(" + call + "))\n"
 		wantOut = "101\n"
 	case 5:
-		body = "\tp, q, r := 7, 8, 9\n\tfor i := 0; i < 2; i++ {\n\t\tx := " + call + "\n\t\tfmt.Println(p, q, r, i, x)\n\t}\n"
+		// the two calls pass different integers (the int-typed/constant arguments get i*1000 added)
+		var largs []string
+		for i, a := range args {
+			if !c.Typed || typs[i%len(typs)] == "int" {
+				a = a + " + i*1000"
+			}
+			largs = append(largs, a)
+		}
+		body = "\tp, q, r := 7, 8, 9\n\tfor i := 0; i < 2; i++ {\n\t\tx := host.F(" + strings.Join(largs, ", ") + ")\n\t\tfmt.Println(p, q, r, i, x)\n\t}\n"
 		wantOut = "7 8 9 0 101\n7 8 9 1 101\n"
 		wantCalls = 2
 	}
 	src := "package p\n\nimport (\n\t\"fmt\"\n\t\"host\"\n)\n\nfunc id(a int) int {\n\treturn a\n}\n\nfunc Main() {\n" + strings.Join(decl, "") + body + "\tfmt.Println(\"end\")\n}\n"
 	wantOut += "end\n"
 	var ws []string
+	bump := func(shown []string, base, k int) []string {
+		if c.Ctx != 5 || k == 0 {
+			return shown
+		}
+		out := make([]string, len(shown))
+		for i, sh := range shown {
+			out[i] = sh
+			if !c.Typed {
+				out[i] = fmt.Sprint(11 + base + i + k*1000)
+			} else if typs[(base+i)%len(typs)] == "int" {
+				out[i] = fmt.Sprintf("%d:int32", 11+base+i+k*1000)
+			}
+		}
+		return out
+	}
 	for k := 0; k < wantCalls; k++ {
 		if c.Form >= 2 {
-			ws = append(ws, "F("+strings.Join(wantArgs, ",")+")")
+			ws = append(ws, "F("+strings.Join(bump(wantArgs, 0, k), ",")+")")
 		} else {
 			ws = append(ws, "F()")
 		}
 		if c.Form == 5 {
-			ws = append(ws, "V("+strings.Join(wantV, ",")+")")
+			ws = append(ws, "V("+strings.Join(bump(wantV, fixed, k), ",")+")")
 		}
 		if c.Ctx == 2 {
 			ws = append(ws, "Show(101:int32)")
@@ -174,9 +200,9 @@ func c19exec(c c19cfg) (got, want string) {
 	}
 	res := m.Call("p.Main", 0)
 	if res.Failed() {
-		return strings.Join(seen, " ") + " | " + res.String() + "\n" + src, want
+		return render() + " | " + res.String() + "\n" + src, want
 	}
-	return strings.Join(seen, " ") + " | " + res.Out, want
+	return render() + " | " + res.Out, want
 }
 
 func c19configs() []c19cfg {
@@ -364,6 +390,11 @@ func c19roundTrips(r *report.Run) {
 		chk(fmt.Sprintf("Int32(%d).Int32()", i), i, v.Int32())
 		chk(fmt.Sprintf("Int32(%d).Int()", i), int(i), v.Int())
 		chk(fmt.Sprintf("Int(%d).Int32()", i), i, goatlang.Int(int(i)).Int32())
+		chk(fmt.Sprintf("Int(%d).Int()", i), int(i), goatlang.Int(int(i)).Int())
+		chk(fmt.Sprintf("Int(%d).Float64()", i), float64(i), goatlang.Int(int(i)).Float64())
+		chk(fmt.Sprintf("Int(%d).String()", i), fmt.Sprint(i), goatlang.Int(int(i)).String())
+		chk(fmt.Sprintf("Int(%d) type", i), "int32", m.TypeOf(goatlang.Int(int(i))))
+		chk(fmt.Sprintf("Int32(%d).Float64()", i), float64(i), v.Float64())
 		chk(fmt.Sprintf("Int32(%d) type", i), "int32", m.TypeOf(v))
 		chk(fmt.Sprintf("Set/Get Int32(%d)", i), i, viaVM(v).Int32())
 		chk(fmt.Sprintf("Int32(%d).String()", i), fmt.Sprint(i), v.String())
@@ -374,6 +405,11 @@ func c19roundTrips(r *report.Run) {
 		chk(fmt.Sprintf("Uint32(%d).Uint32()", u), u, v.Uint32())
 		chk(fmt.Sprintf("Uint32(%d).Uint()", u), uint(u), v.Uint())
 		chk(fmt.Sprintf("Uint(%d).Uint32()", u), u, goatlang.Uint(uint(u)).Uint32())
+		chk(fmt.Sprintf("Uint(%d).Uint()", u), uint(u), goatlang.Uint(uint(u)).Uint())
+		chk(fmt.Sprintf("Uint(%d).Float64()", u), float64(u), goatlang.Uint(uint(u)).Float64())
+		chk(fmt.Sprintf("Uint(%d).String()", u), fmt.Sprint(u), goatlang.Uint(uint(u)).String())
+		chk(fmt.Sprintf("Uint(%d) type", u), "uint32", m.TypeOf(goatlang.Uint(uint(u))))
+		chk(fmt.Sprintf("Uint32(%d).Float64()", u), float64(u), v.Float64())
 		chk(fmt.Sprintf("Uint32(%d) type", u), "uint32", m.TypeOf(v))
 		chk(fmt.Sprintf("Set/Get Uint32(%d)", u), u, viaVM(v).Uint32())
 		chk(fmt.Sprintf("Uint32(%d).String()", u), fmt.Sprint(u), v.String())
@@ -499,6 +535,83 @@ func c19errorChecks(r *report.Run) {
 	}
 }
 
+// (e) re-entrancy: a native that is re-entered (through vm.Call -> script -> the same native) must still hold
+// exactly the arguments it received when the nested call returns.
+func c19reentry(r *report.Run) {
+	for form := 4; form <= 5; form++ {
+		for arity := 1; arity <= 3; arity++ {
+			for tail := 0; tail <= 3; tail++ {
+				if form == 4 && tail > 0 {
+					continue
+				}
+				for depth := 1; depth <= 3; depth++ {
+					m := goat.New()
+					var log []string
+					show := func(vs []goatlang.Value) string {
+						var p []string
+						for _, v := range vs {
+							p = append(p, v.String())
+						}
+						return strings.Join(p, ",")
+					}
+					body := func(vm *goatlang.VM, args []goatlang.Value, vargs []goatlang.Value) {
+						before := show(args) + "|" + show(vargs)
+						level := args[0].Int()
+						if level > 0 {
+							if _, err := vm.Call("p.Again", 0, goatlang.Int(level-1)); err != nil {
+								panic(err)
+							}
+						}
+						after := show(args) + "|" + show(vargs)
+						if before != after {
+							log = append(log, fmt.Sprintf("level %d: had (%s), after the nested call (%s)", level, before, after))
+						} else {
+							log = append(log, fmt.Sprintf("level %d ok (%s)", level, before))
+						}
+					}
+					if form == 4 {
+						m.VM.Set("host.R", goatlang.NewFunc(arity, 0, func(vm *goatlang.VM, args []goatlang.Value) []goatlang.Value {
+							body(vm, args, nil)
+							return nil
+						}))
+					} else {
+						m.VM.Set("host.R", goatlang.NewFunc(arity+1, 0, func(vm *goatlang.VM, args []goatlang.Value, vargs ...goatlang.Value) []goatlang.Value {
+							body(vm, args, vargs)
+							return nil
+						}))
+					}
+					var extra []string
+					for i := 1; i < arity+tail; i++ {
+						extra = append(extra, fmt.Sprintf("n*100 + %d", i))
+					}
+					call := "host.R(" + strings.Join(append([]string{"n"}, extra...), ", ") + ")"
+					src := "package p\n\nimport \"host\"\n\nfunc Again(n int) {\n\t" + call + "\n}\n"
+					key := fmt.Sprintf("re-entered native: form %s, %d fixed + %d variadic arguments, nesting %d", c19forms[form], arity, tail, depth)
+					r.Eval(1)
+					r.Nontrivial(key)
+					lr := m.Load(goat.FS(map[string]string{"p/p.go": src}), "p")
+					if lr.Failed() {
+						r.Fail(&report.Case{Kind: "reentry", Key: key, Want: "loads", Got: lr.String()})
+						m.Close()
+						continue
+					}
+					res := m.Call("p.Again", 0, goatlang.Int(depth))
+					bad := res.Failed()
+					for _, l := range log {
+						if !strings.Contains(l, " ok ") {
+							bad = true
+						}
+					}
+					if bad || len(log) != depth+1 {
+						r.Fail(&report.Case{Kind: "reentry", Key: key, Want: "every level still holds its own arguments", Got: strings.Join(log, "; ") + " " + res.Status()})
+					}
+					m.Close()
+				}
+			}
+		}
+	}
+}
+
 func c19run(r *report.Run) {
 	r.Rule("(a) every constructor over its domain (all 256 values for the 8-bit types, boundary sets otherwise, the C13 string pool, slices of 0..4 elements, maps of 4 key kinds, Wrap/Error/Nil) read back through every matching accessor and through VM.Set/Get; (b) all six NewFunc forms x arity 0..6 x results 0..4 x variadic tail 0..3 x 6 call contexts x {constant, typed} arguments; (c) VM.Call/VM.Func on script functions with 0..6 parameters x 0..4 results x every requested count 0..declared+1 x {right, one fewer, one more} arguments; (d) string/error/script/run-time panics at nesting depth 1..3, also inside sort comparators; non-trivial = every configuration except arity 0 statement calls")
 	r.Assume("expected values are what the generator planted", "form func(*VM) can only be registered as a 0->0 function from outside the package (the VM stack is unexported)")
@@ -522,6 +635,7 @@ func c19run(r *report.Run) {
 	})
 	c19callChecks(r)
 	c19errorChecks(r)
+	c19reentry(r)
 }
 
 func c19rerun(c *report.Case) (bool, string) {
@@ -542,6 +656,8 @@ func c19rerun(c *report.Case) (bool, string) {
 		c19callChecks(rr)
 	case "error":
 		c19errorChecks(rr)
+	case "reentry":
+		c19reentry(rr)
 	}
 	return rr.Violations() > 0, fmt.Sprintf("%d failing cases in the %s family", rr.Violations(), c.Kind)
 }
